@@ -786,8 +786,8 @@ impl Suite {
   fn add_finding(&mut self, f: Finding) {
     match f.kind { "divergence" => self.divergences += 1, "property" => self.property_violations += 1, _ => self.selfcheck_failures += 1 }
     // keep property findings and divergences apart: a flood of one kind must not hide the other
-    let same_kind = self.findings.iter().filter(|g| g.kind == f.kind).count();
-    if same_kind < 100 { self.findings.push(f); }
+    let same_class = self.findings.iter().filter(|g| g.kind == f.kind && g.properties == f.properties).count();
+    if same_class < 40 { self.findings.push(f); }
   }
 
   // queue the model comparisons for one value; run the implementation-side checks
@@ -1155,7 +1155,10 @@ pub fn run(opts: &Opts) -> i32 {
 
   // property findings (concrete failing inputs) first, at most MAX_REPLAYS of each kind
   let mut ordered: Vec<&Finding> = Vec::new();
-  for kind in ["property", "divergence"] { ordered.extend(findings.iter().filter(|f| f.kind == kind).take(MAX_REPLAYS)); }
+  // ... and of each property: a flood of C14 panics must not hide the C13 / C15 findings of the same change
+  for prop in ["C13", "C14", "C15"] { ordered.extend(findings.iter().filter(|f| f.kind == "property" && f.properties == prop).take(8)); }
+  ordered.extend(findings.iter().filter(|f| f.kind == "property" && !["C13", "C14", "C15"].contains(&f.properties)).take(8));
+  ordered.extend(findings.iter().filter(|f| f.kind == "divergence").take(MAX_REPLAYS));
   ordered.extend(findings.iter().filter(|f| f.kind != "property" && f.kind != "divergence").take(MAX_REPLAYS));
   for (i, f) in ordered.iter().enumerate() {
     let path = format!("{}/finding_{}_{}.json", out_dir, seed, i);
